@@ -277,7 +277,13 @@ func c19Body(c *mc.Ctx) {
 	}
 	k := &c19cfg{cols: []string{"p", "q", "r"}}
 	nr := c.Choose(maxRows + 1)
+	// second alphabet: a longer value that sorts before a shorter one ("ab" < "b"), which an order
+	// taken from the length-prefixed encoding gets wrong
+	// (quick: up to 3 rows)
 	a0 := []string{"", "a", "b"}
+	if (nr <= 3 || c.Thorough()) && c.Choose(2) == 1 {
+		a0 = []string{"", "ab", "b"}
+	}
 	a1 := []string{"", "a"}
 	a2 := []string{"x", "y"}
 	for i := 0; i < nr; i++ {
@@ -373,7 +379,7 @@ func init() {
 	register(&mc.Check{
 		ID:    "C19",
 		Level: "exploration",
-		Rule: "every sequence of 0..4 (thorough 5) rows over 3 columns with cells {'',a,b}x{'',a}x{x,y} x key in {none,[0],[1],[0,1],[1,0],[2,0]} x run size in {nothing spills, every row spills alone, spill after ~2 rows} " +
+		Rule: "every sequence of 0..4 (thorough 5) rows over 3 columns with cells {'',a,b}x{'',a}x{x,y} and (up to 3 rows; thorough all) {'',ab,b}x{'',a}x{x,y} x key in {none,[0],[1],[0,1],[1,0],[2,0]} x run size in {nothing spills, every row spills alone, spill after ~2 rows} " +
 			"x configuration {SetColumns as ingest does, optionally on a Sorter that already sorted another table (narrower, wider, keyed) and was Reset; key only with every subset of non-key columns removed as the merge collector does}; both outputs (SortedBlocks, SortedRows) of two identically fed sorters are compared with " +
 			"(plus, under the build-time overlay that scales the block size to 3 rows: every sequence of 0..5 (8) rows over 5 keys so that duplicates and spills straddle block boundaries; and every sequence of 5..7 (9) rows over 4 keys with spilled runs of 3 and of 4 rows, so that row buffers are reused from run to run) " +
 			"sort+dedupe of the input (component-wise byte order), with each other, block first keys with the blocks' first rows, and TMPDIR is listed after Close. non-trivial = at least two rows; distinct by full case description",
@@ -383,7 +389,7 @@ func init() {
 			"keyless sorter without columns (merge collector on keyless tables) is judged by C05, not here",
 		},
 		Harnesses: []*mc.Harness{
-			{Name: "small-rows", Body: c19Body, DevBound: map[string]int{"quick": 1, "thorough": 1}, Budget: map[string]time.Duration{"quick": 60 * time.Second, "thorough": 10 * time.Minute}},
+			{Name: "small-rows", Body: c19Body, DevBound: map[string]int{"quick": 1, "thorough": 1}, Budget: map[string]time.Duration{"quick": 150 * time.Second, "thorough": 10 * time.Minute}},
 			{Name: "b3-block-boundaries", Variant: "b3", Body: c19BodyB3, DevBound: map[string]int{"quick": 2, "thorough": 3},
 				Budget: map[string]time.Duration{"quick": 45 * time.Second, "thorough": 10 * time.Minute}},
 			{Name: "b3-multi-row-runs", Variant: "b3", Body: c19BodyRuns, DevBound: map[string]int{"quick": 1, "thorough": 2},
